@@ -968,6 +968,25 @@ HamEdgeEv(ev) ==
       b == [terms |-> terms, bases |-> bases, labels |-> <<lab, lab>>, sym |-> a.sym]
   IN IF ~ok THEN {}
      ELSE LocalArrayEv([ev EXCEPT !.args = b])
+\* C18: the shipped model builders (fermi_hubbard_*_local_array, fermi_number_operator_*_local_array,
+\* fermi_spin_operator_local_array) called directly.  args: name, sym, t, U/V, mu as pairs, z = coordinations, scale (the
+\* result was multiplied by it so that halves become integers)
+LocalBuilderEv(ev) ==
+  LET a == ev.args
+      ok == a.Ua % a.z[1] = 0 /\ a.Ub % a.z[2] = 0 /\ a.mua % a.z[1] = 0 /\ a.mub % a.z[2] = 0
+      one == << << <<>>, <<Cr(1)>>, <<Cr(2)>>, <<Cr(2), Cr(1)>> >> >>      \* (|00>, ad+, au+, au+ ad+) of one site
+      terms == CASE a.name = "hubbard" -> SpinfulTerms(a.t, a.Ua \div a.z[1], a.Ub \div a.z[2], a.mua \div a.z[1], a.mub \div a.z[2])
+                 [] a.name = "hubbard_spinless" -> SpinlessTerms(a.t, a.V, a.mua \div a.z[1], a.mub \div a.z[2])
+                 [] a.name = "number_spinless" -> <<Term(1, <<Cr(1), An(1)>>)>>
+                 [] a.name = "number_spinful" -> <<Term(1, <<Cr(2), An(2)>>), Term(1, <<Cr(1), An(1)>>)>>
+                 [] a.name = "spin" -> <<Term(1, <<Cr(2), An(2)>>), Term(-1, <<Cr(1), An(1)>>)>>    \* 2 S^z
+      bases == CASE a.name = "hubbard" -> SpinfulBases
+                 [] a.name = "hubbard_spinless" -> SpinlessBases
+                 [] a.name = "number_spinless" -> << << <<>>, <<Cr(1)>> >> >>
+                 [] OTHER -> one
+      lab1 == IF a.name \in {"hubbard_spinless", "number_spinless"} THEN SpinlessLabels(a.sym) ELSE SpinfulLabels(a.sym)
+      b == [terms |-> terms, bases |-> bases, labels |-> [i \in 1..Len(bases) |-> lab1], sym |-> a.sym]
+  IN IF ~ok THEN {} ELSE LocalArrayEv([ev EXCEPT !.args = b, !.op = "local_array"])
 \* every edge exactly once, as given
 HamKeysEv(ev) ==
   LET t == ev.regs.tab IN
@@ -1175,6 +1194,7 @@ OpFails(ev, pre) ==
   ELSE IF ev.op = "local_elements" THEN LocalElementsEv(ev)
   ELSE IF ev.op = "local_array" THEN LocalArrayEv(ev)
   ELSE IF ev.op = "ham_edge" THEN HamEdgeEv(ev)
+  ELSE IF ev.op = "local_builder" THEN LocalBuilderEv(ev)
   ELSE IF ev.op = "ham_keys" THEN HamKeysEv(ev)
   ELSE IF ev.op = "site_info" THEN SiteInfoEv(ev)
   ELSE IF ev.op = "op_apply" THEN OpApplyEv(ev, pre)
